@@ -43,6 +43,25 @@ impl Prop for C12 {
     }
     fn enumerate(&self, tier: Tier, shard: usize, nshards: usize, f: &mut dyn FnMut(Case)) {
         use crate::refmodel::build_packet;
+        // every command code x a few instance ids / requesters
+        {
+            let cfg = CtxCfg { addr: 0x23, msg_types: vec![0x7E], vendors: vec![(0, 0x1234, 0xAB)] };
+            for cmd in 0..=255u8 {
+                if (cmd as usize) % nshards != shard {
+                    continue;
+                }
+                for (s, iid) in [(0x34u8, 0u8), (0x34, 1), (0x11, 31), (0x90, 0), (0x7F, 17)] {
+                    let data: Vec<u8> = match crate::refmodel::req_fixed_len(cmd) {
+                        Some(l) => (0..l).map(|i| if cmd == 0x01 && i == 1 { 0x42 } else { 0 }).collect(),
+                        None => vec![],
+                    };
+                    let mut body = vec![0x80 | iid, cmd];
+                    body.extend_from_slice(&data);
+                    let bytes = build_packet(0x23, s, 0x23, s, 0xC8, 0x00, &body);
+                    f(Case { cfg: cfg.clone(), ops: vec![Op::Process { bytes, cap: 64, fill: 0x66 }] });
+                }
+            }
+        }
         let addrs: Vec<u8> = if tier == Tier::Thorough { vec![0x00, 0x23, 0x40, 0x7F] } else { vec![0x23] };
         for &a in &addrs {
             let cfg = CtxCfg { addr: a, msg_types: vec![0x7E, 0x05], vendors: vec![(0, 0x1234, 0xAB), (1, 0x00C0FFEE, 9)] };
@@ -73,7 +92,7 @@ impl Prop for C12 {
         }
     }
     fn enumerated_desc(&self, tier: Tier) -> Option<String> {
-        Some(format!("every requester 0..255 x every instance id 0..31 x 9 requests (Set EID Set / SetDiscoveredFlag, Get EID, UUID, version, message types, vendor selector valid / out of range, an unsupported command) on {} responder address(es)", if tier == Tier::Thorough { 4 } else { 1 }))
+        Some(format!("every requester 0..255 x every instance id 0..31 x 9 requests (Set EID Set / SetDiscoveredFlag, Get EID, UUID, version, message types, vendor selector valid / out of range, an unsupported command) on {} responder address(es); every command code 0..255 x 5 (requester, instance id) pairs", if tier == Tier::Thorough { 4 } else { 1 }))
     }
     fn run(&self, case: &Case) -> CaseResult {
         let mut r = CaseResult::default();
